@@ -180,6 +180,14 @@ fn run(prop: &str, tier_s: &str) -> i32 {
         std::env::var("VERIF_WORKER_TIMEOUT").ok().and_then(|s| s.parse().ok()).unwrap_or(if tier == Tier::Quick { 600 } else { 6 * 3600 }),
     );
 
+    // replay files of earlier runs of this property are stale once it is re-run
+    if let Ok(rd) = std::fs::read_dir(vd.join("replays")) {
+        for e in rd.flatten() {
+            if e.file_name().to_string_lossy().starts_with(&format!("{prop}-")) {
+                let _ = std::fs::remove_file(e.path());
+            }
+        }
+    }
     let mut running: Vec<WorkerRun> = (0..jobs).map(|s| spawn_worker(prop, tier_s, s, jobs, &scratch, &[])).collect();
     let mut merged: Vec<UnitResult> = vec![];
     let mut crashes: Vec<Value> = vec![];
@@ -411,6 +419,7 @@ fn replay(path: &str) -> i32 {
         "text" => eng_text::replay(&v),
         "nested" => eng_nested::replay(&v),
         "drops" => eng_drops::replay(&v),
+        "hist" | "threads" => eng_hist::replay(&v),
         "graphemes" | "iterinput" | "cursor" => eng_inputs::replay(&v),
         "leftrec" | "rec" | "rec-life" | "rec-depth" | "rec-define" => eng_rec::replay(&v),
         _ => cvh::replay::replay(&v),
